@@ -49,7 +49,7 @@ Notation tctx := (tctx K).
 
 Definition is_srcp (n : pname) : bool := match n with pIsc | pVoc => true | _ => false end.
 (* K: the mutual operator M·d/dt; its d/dt coefficient is the mutual inductance M (parameter pZM2 of the stamp) *)
-Definition tM (e : tctx) : K * K := if akind_eqb (t_kind e) KS || akind_eqb (t_kind e) KIvp || akind_eqb (t_kind e) KLaplace then t_op e pZM0 else t_op e pZM1.
+Definition tM (e : tctx) : K * K := if akind_eqb (t_kind e) KS || akind_eqb (t_kind e) KIvp || akind_eqb (t_kind e) KLaplace || akind_eqb (t_kind e) KTransient then t_op e pZM0 else t_op e pZM1.
 Definition ctx_at (s : K) (e : tctx) : sctx K :=
   SCtx K (t_kind e) (t_typ e) (tp0 e) (tp1 e) (tp2 e) (tp3 e) (tc0 e) (tc1 e)
        (tbown e) (tbextra e) (tbctrl e) (tbL1 e) (tbL2 e)
@@ -208,9 +208,8 @@ Theorem transfer_K e q : akind_eqb (t_kind e) KDc = false -> k_ic_ok e ->
   Lval s (tbrel_K e v ib q) = brel_K (ctx_at s e) Lv Lib q.
 Proof. intros Hk Hic. unfold tbrel_K, brel_K, MI, ZM. cbn [ctx_at kind par bL1 bL2 is_srcp]. rewrite Hk.
   destruct Hic as [Hi|[H1 H2]].
-  - rewrite Hi. unfold tM. rewrite Hi, orb_true_r. cbn [orb]. push. ring.
-  - rewrite H1, H2. unfold tM. destruct (akind_eqb (t_kind e) KIvp); destruct (akind_eqb (t_kind e) KS || true || akind_eqb (t_kind e) KLaplace) eqn:E1;
-      destruct (akind_eqb (t_kind e) KS || false || akind_eqb (t_kind e) KLaplace) eqn:E2; push; ring. Qed.
+  - unfold tM. destruct (t_kind e); cbn [akind_eqb orb andb] in *; try discriminate; push; ring.
+  - rewrite H1, H2. unfold tM. destruct (t_kind e); cbn [akind_eqb orb andb] in *; try discriminate; push; ring. Qed.
 Theorem transfer_TF_d e r : gain_const e pAlpha -> Lval s (tdrawn_TF e v ib r) = drawn_TF (ctx_at s e) Lv Lib r.
 Proof. unfold gain_const. intros H. unfold tdrawn_TF, drawn_TF. cbn [ctx_at par p0 p1 p2 p3 bown is_srcp]. rewrite H. push. unfold thru. ring. Qed.
 Theorem transfer_TF_b e q : gain_const e pAlpha -> Lval s (tbrel_TF e v ib q) = brel_TF (ctx_at s e) Lv Lib q.
